@@ -558,6 +558,8 @@ def run (ctx):
         fs = q.fact_strs(g, n)
         good = any(f.endswith(':falsy') for f in fs if 'remove_flows' in f or 'remaining' in f)
         ctx.ob('R-ALL', rse, "removal scan stops only when nothing is left to remove", good, "break under empty removal set" if good else "facts %s" % fs, (ftmod, n.ast), 'D7')
+  # ---- mechanisms this property shares with others: their checks' rules about these functions are obligations here too
+  ctx.include('C03', ['matches_with_wildcards', 'is_exact', 'effective_priority'], 'non-strict commands select entries by match subsumption')
 
 def _in_loop_before (g, d, rn):
   return rn in g.reachable(d)
